@@ -584,7 +584,21 @@ func main() {
 	if *flagUnit != "" {
 		units = []string{*flagUnit}
 	} else if pd, ok := e.spec.Properties[prop]; ok {
-		units = pd.Units
+		units = append([]string{}, pd.Units...)
+		var extra []string
+		for u := range pd.Core {
+			dup := false
+			for _, x := range units {
+				if x == u {
+					dup = true
+				}
+			}
+			if !dup {
+				extra = append(extra, u)
+			}
+		}
+		sort.Strings(extra)
+		units = append(units, extra...)
 	} else {
 		fmt.Fprintf(os.Stderr, "govc: no units declared for property %s\n", prop)
 		os.Exit(2)
@@ -681,6 +695,7 @@ func main() {
 	}
 	for _, u := range units {
 		if ct := e.spec.Contracts[u]; ct != nil {
+			e.unit = u
 			for _, r := range ct.Sites {
 				if r.Action == "assert" && r.Fired == 0 && e.wantTags(r.Cl.Tags) {
 					missing = append(missing, fmt.Sprintf("contract-target-missing: %s: no `%s %s` site exists any more for assertion %s", u, r.Sel, r.Pat, r.Cl.Label))
@@ -689,6 +704,7 @@ func main() {
 		}
 	}
 	if *flagUnit == "" {
+		e.unit = ""
 		for _, r := range e.spec.Globals {
 			if r.Action == "assert" && r.Fired == 0 && !r.Optional && e.wantTags(r.Cl.Tags) && len(r.Cl.Tags) > 0 {
 				missing = append(missing, fmt.Sprintf("contract-target-missing: global rule `%s %s` (%s) matches no site in the units of %s", r.Sel, r.Pat, r.Cl.Label, prop))
